@@ -145,6 +145,8 @@ def generate(seed, prop, bias):
         # a slow storage: operations take tenths of a second, so that
         # whatever waits on a full pool waits for long
         scn['store_lat'] = [0.0, 0.1, 0.3, 0.6]
+    if backend == 'dict' and rng.random() < bias.get('p_shelf', 0.3):
+        scn['dict_kind'] = 'shelf'
     if backend == 'redis' and rng.random() < 0.3:
         scn['redis_prefix'] = rng.choice(['mailq-', 'mx1.', 'slimta:in:'])
     if rk != 'script':
